@@ -14,7 +14,9 @@ DENOM_FAMILIES = [
     ["ibc/aa", "bbcc", "ibc/aab", "bcc", "ibc/a", "abbcc"],
     ["uluna", "uusd", "ulun", "auusd", "ulunau", "usd"],
 ]
-EXTRA = ["utaura", "contract3", "contract4", "contract40", "uatom", "aaa", "aaaa", "aaab", "zzz"]
+EXTRA = ["utaura", "contract3", "contract4", "contract40", "uatom", "aaa", "aaaa", "aaab", "zzz",
+         # denoms are case-sensitive; real IBC vouchers carry upper-case hex
+         "ibc/A1B2", "ibc/a1b2", "ibc/A1b2C3", "IBC/a1b2", "ibc/27394FB092D2ECCD56123C74F36E4C1F926001CEADA9CA97EA622B25F41E5EB2", "Uaura"]
 
 
 class RegWorld:
@@ -23,7 +25,7 @@ class RegWorld:
         fams = list(DENOM_FAMILIES)
         rng.shuffle(fams)
         fams = fams[:n_families or rng.choice([1, 2, 2, 3])]
-        denoms = [d for f in fams for d in f] + rng.sample(EXTRA, rng.randrange(2, 6))
+        denoms = [d for f in fams for d in f] + rng.sample(EXTRA, rng.randrange(3, 9))
         rng.shuffle(denoms)
         self.denoms = denoms
         # some denoms are never registered with the factory
